@@ -51,8 +51,14 @@ def run_tests(wt, tests):
 
 def main():
     pid = sys.argv[1]
-    out_dir = sys.argv[2] if len(sys.argv) > 2 else f"/tmp/out_{pid}"
-    wt = f"/tmp/wt_{pid}"
+    rnd = ""
+    if "--round" in sys.argv:
+        rnd = sys.argv[sys.argv.index("--round") + 1]
+        del sys.argv[sys.argv.index("--round"):sys.argv.index("--round") + 2]
+    sfx = rnd if rnd not in ("", "1") else ""
+    out_dir = sys.argv[2] if len(sys.argv) > 2 else f"/tmp/out{sfx}_{pid}"
+    wt = f"/tmp/wt{sfx}_{pid}"
+    tag = f"-r{rnd}" if sfx else ""
     head = sh("git -C /repo rev-parse HEAD").stdout.strip()
     sh(f"git -C {wt} checkout -q -- . && git -C {wt} checkout -q --detach {head}")
     summary = open(os.path.join(out_dir, "SUMMARY.md")).read() if os.path.exists(os.path.join(out_dir, "SUMMARY.md")) else ""
@@ -62,7 +68,7 @@ def main():
         demo = os.path.join(out_dir, f"demo_{i}.py")
         if not os.path.exists(demo):
             continue
-        rec = {"id": f"{pid}-{i}", "property": pid}
+        rec = {"id": f"{pid}{tag}-{i}", "property": pid}
         sh(f"git -C {wt} checkout -q -- .")
         r0 = sh(f"cd {out_dir} && {PY} demo_{i}.py", timeout=900)
         rec["demo_clean_rc"] = r0.returncode
@@ -95,11 +101,11 @@ def main():
         m = re.search(rf"\*\*change_{i}\*\*(.*?)(?=\n- \*\*change_|\Z)", summary, re.S)
         rec["agent_summary"] = (m.group(1).strip()[:1500] if m else "")
         if confirmed:
-            d = os.path.join(VERIF, "seeded", f"{pid}-{i}")
+            d = os.path.join(VERIF, "seeded", rec["id"])
             os.makedirs(d, exist_ok=True)
             shutil.copy(diff, os.path.join(d, "patch.diff"))
-            src = open(demo).read().replace(f'"/tmp/wt_{pid}/src"', '__import__("os").environ.get("VK_SRC", "/repo/src")').replace(
-                f"'/tmp/wt_{pid}/src'", '__import__("os").environ.get("VK_SRC", "/repo/src")')
+            src = open(demo).read().replace(f'"{wt}/src"', '__import__("os").environ.get("VK_SRC", "/repo/src")').replace(
+                f"'{wt}/src'", '__import__("os").environ.get("VK_SRC", "/repo/src")')
             with open(os.path.join(d, "demo.py"), "w") as fh:
                 fh.write("# Demonstration for seeded change %s: exits 1 with patch.diff applied to the tree named by VK_SRC (default /repo/src), 0 without.\n" % rec["id"] + src)
             meta = {
